@@ -77,6 +77,26 @@ PROPS = {
         ],
         "not_covered": ["Files::sort", "Files::specification"],
     },
+    "C17": {
+        "units": ["subst"],
+        "level": "proof",
+        "property_obligations": ["Formula::substitute", "theorem_c17", "lemma_subst_cl", "lemma_rename_step", "lemma_subst_under_block", "lemma_loop_init",
+                                 "lemma_loop_keep", "lemma_loop_rename", "lemma_loop_final", "lemma_subst_atomic", "lemma_subst_unary", "lemma_subst_binary",
+                                 "lemma_subst_blocked", "lemma_quant_set", "lemma_coin_ht", "lemma_coin_cl", "lemma_ssub_gen", "lemma_ssub_atomic_parts",
+                                 "lemma_ssub_atomic_occ"],
+        "carriers": ["IntegerTerm::substitute", "SymbolicTerm::substitute", "GeneralTerm::substitute", "GeneralTerm::from", "Atom::substitute",
+                     "Comparison::substitute", "AtomicFormula::substitute", "Formula::free_variables", "GeneralTerm::variables", "Formula::quantify"],
+        "explanation": "Verus proves, on the real bodies extracted from the working tree, that Formula::substitute(self, var, term) returns r with: for every HT interpretation, world and "
+                       "assignment ht_sat(r,s) == ht_sat(self, s[var := value of term in s]) (hence the same classically: theorem_c17), fv(r) = fv(self) minus var plus vars(term) when var is free in self "
+                       "(and fv(self) otherwise), for every formula, variable and sort-compatible term; the panic! arms of GeneralTerm::substitute are unreachable under sort compatibility; "
+                       "termination via a size measure. The proof covers binders reusing the substituted name (blocked), binders naming variables of the term (renamed before descending), several "
+                       "such binders in one block, fresh names colliding with later binders of the block, and same name at two sorts. The only unverified step is the infinite-iterator expression "
+                       "Variable::sequence(..).find(..).unwrap(), replaced (rule D13) by a stub whose assumed contract is read off the conjuncts of the predicate in the real code.",
+        "assumptions": [
+            "D13: Variable::sequence(&v).find(|c| P(c)).unwrap() returns some variable of v's sort satisfying P (that `sequence` yields infinitely many distinct names, so `find` succeeds, and that `find` returns an element satisfying its predicate); the conjuncts of P are taken from the real code on every run",
+            "T7: <[T]>::contains is membership w.r.t. structural equality (derived PartialEq)",
+        ],
+    },
     "C18": {
         "units": ["apply"],
         "level": "other",
